@@ -128,13 +128,13 @@ func itemFor(ctx context.Context, probes []corev1alpha1.ObjectSetProbe, actual *
 	pure := true
 	run := func(p probing.Prober) (bool, []string) {
 		holder := actual.DeepCopy()
-		ok, msgs := p.Probe(holder)
+		ok, msgs, _ := safeProbe(p, holder)
 		if !reflect.DeepEqual(holder.Object, actual.Object) {
 			pure = false
 		}
 		return ok, msgs
 	}
-	it.CEL = celOracle(probes, run)
+	it.CEL = celOracle(probes, actual)
 	p, err := internalprobing.Parse(ctx, probes)
 	if err != nil {
 		return it, err
@@ -245,9 +245,7 @@ func init() {
 			du := d.Object.DeepCopy()
 			objs = append(objs, du)
 			// no object, no oracle results; the compile classes of the rules are still needed to parse the list
-			obs.Items = append(obs.Items, probeItem{Missing: true, CEL: celOracle(sc.Probes, func(p probing.Prober) (bool, []string) {
-				return p.Probe(du.DeepCopy())
-			})})
+			obs.Items = append(obs.Items, probeItem{Missing: true, CEL: celOracle(sc.Probes, du)})
 		}
 		if next != len(actual) {
 			obs.Res, obs.Err = "err", fmt.Sprintf("%d objects returned, %d matched with the phase", len(actual), next)
